@@ -414,6 +414,13 @@ def translate(sc, res, trace):
     return ids, order, A, B, ",".join(diag) or "-"
 
 
+# the layer-A model each property's theorems are proved on (lean/AJ/Model/Lax.lean, Proofs/LaxA.lean):
+#   laxall  = no window limit, no urgency guard on the clock   (C01, C02 at-most-once, C14)
+#   laxtime = window limit enforced, no urgency guard          (C07)
+#   strict  = everything                                        (C12, and layer A of the layer-B properties)
+A_MODE = {"C01": "laxall", "C02": "laxall", "C14": "laxall", "C07": "laxtime"}
+
+
 def replay_all(pid, traces, res, drv):
     """traces: list of (scenario, result, trace). Adds the correspondence differences that matter for `pid`
     to res.mismatches; the others are counted in res.dist["irrelevant_differences"]."""
@@ -427,7 +434,7 @@ def replay_all(pid, traces, res, drv):
             res.mismatches.append(("harness:translate", {"scenario": sc}, "-", traceback.format_exc()[-600:]))
             continue
         cfg = cfg_tokens(sc, ids, order)
-        lines.append("replayA %s ev=%s" % (cfg, ";".join(A)))
+        lines.append("replayA %s mode=%s ev=%s" % (cfg, A_MODE.get(pid, "strict"), ";".join(A)))
         cases.append((sc, "A", len(A)))
         if "B" in layers:
             lines.append("replayB %s diag=%s ev=%s" % (cfg, diag, ";".join(B)))
